@@ -22,6 +22,9 @@ type NumRec struct {
 
 var NaNRec = NumRec{C: "nan", N: 0, D: 1}
 
+// BigTxt mirrors BigTxt of XPathValues.tla: exact doubles needing 16-17 significant digits.
+var BigTxt = []string{"4503599627370497", "9007199254740991", "0.49999999999999994"}
+
 func gcd(a, b int64) int64 {
 	for b != 0 {
 		a, b = b, a%b
@@ -49,6 +52,11 @@ func FromFloat(x float64) NumRec {
 		n, d := n8/g, 8/g
 		if n <= MaxN {
 			return NumRec{C: "fin", Neg: neg, N: int(n), D: int(d)}
+		}
+	}
+	for i, t := range BigTxt {
+		if b, _ := strconv.ParseFloat(t, 64); a == b {
+			return NumRec{C: "big", Neg: neg, N: i + 1, D: 1}
 		}
 	}
 	for e := -9; e <= 22; e++ {
@@ -84,6 +92,12 @@ func (r NumRec) ToFloat() (float64, bool) {
 		return s * float64(r.N) / float64(r.D), true
 	case "p10":
 		p, _ := strconv.ParseFloat("1e"+strconv.Itoa(r.N), 64)
+		return s * p, true
+	case "big":
+		if r.N < 1 || r.N > len(BigTxt) {
+			return 0, false
+		}
+		p, _ := strconv.ParseFloat(BigTxt[r.N-1], 64)
 		return s * p, true
 	}
 	return 0, false
